@@ -326,18 +326,25 @@ def outcome_equal(native, expect):
         return False
     if expect.get("k") == "exc":
         return native.get("cls") == expect.get("cls")
-    if expect.get("inexact"):
-        a, b = native.get("v"), expect.get("v")
+    return canon_equal(native.get("v"), expect.get("v"), bool(expect.get("inexact")))
+
+
+def canon_equal(a, b, loose=False):
+    """equality of canonical outcomes; a symbolic real (frac) equals a native float when they agree to 1e-9.
+    loose: the symbolic value depends on uninterpreted library symbols whose model value is arbitrary: text, byte
+    strings and numbers are then compared by kind only, the structure (classes, enum members, field names) exactly."""
+    if loose:
         if isinstance(a, str) and isinstance(b, str):
-            return len(a) == len(b)
+            return True
+        num = lambda x: (isinstance(x, (int, float)) and not isinstance(x, bool)) or (isinstance(x, dict) and x.get("t") in ("frac", "float"))
+        if num(a) and num(b):
+            return True
         if isinstance(a, dict) and isinstance(b, dict) and a.get("t") == b.get("t") == "bytes":
-            return len(a["hex"]) == len(b["hex"])
-        return type(a) is type(b) or (isinstance(a, dict) and isinstance(b, dict))
-    return canon_equal(native.get("v"), expect.get("v"))
-
-
-def canon_equal(a, b):
-    """equality of canonical outcomes; a symbolic real (frac) equals a native float when they agree to 1e-9"""
+            return True
+        if isinstance(a, dict) and isinstance(b, dict) and a.get("t") not in ("frac", "float"):
+            return set(a) == set(b) and all(canon_equal(a[k], b[k], True) for k in a)
+        if isinstance(a, list) and isinstance(b, list):
+            return len(a) == len(b) and all(canon_equal(x, y, True) for x, y in zip(a, b))
     if isinstance(a, dict) and isinstance(b, dict):
         ta, tb = a.get("t"), b.get("t")
         if {ta, tb} <= {"frac", "float"} and ta and tb:
